@@ -18,6 +18,7 @@
 #include <cstring>
 #include <functional>
 #include <map>
+#include <memory>
 #include <string>
 #include <vector>
 
@@ -193,16 +194,28 @@ class Explorer {
   // onExec is called for every execution; return false to stop the search.
   Stats explore(const Config& cfg, const Body& body, const std::function<bool(const Exec&)>& onExec) {
     Stats S;
+    // A frame is "the first `len` choices of execution `base`, then alternative `alt`": all the alternatives of one
+    // execution share its choice sequence (a frame costs 32 bytes, not a copy of a prefix that may be 10^5 long).
+    struct PFrame {
+      std::shared_ptr<const std::vector<uint8_t>> base;
+      size_t len = 0;
+      int alt = -1;  // -1: the empty prefix (root)
+    };
     struct Frame {
       std::vector<uint8_t> prefix;
     };
-    std::vector<Frame> stack;
-    stack.push_back({{}});
+    std::vector<PFrame> stack;
+    stack.push_back(PFrame{});
     bool first = true;
     if (cfg.inProcess) (void)run({}, cfg, body);  // warm-up: caches and lazily built globals reach their steady state
     while (!stack.empty()) {
-      Frame f = std::move(stack.back());
+      PFrame pf = std::move(stack.back());
       stack.pop_back();
+      Frame f;
+      if (pf.alt >= 0) {
+        f.prefix.assign(pf.base->begin(), pf.base->begin() + pf.len);
+        f.prefix.push_back((uint8_t)pf.alt);
+      }
       if (cfg.maxExec && S.executions >= cfg.maxExec) {
         S.capped = true;
         break;
@@ -235,15 +248,17 @@ class Explorer {
         if (e.trace[i].chosen) cost += e.trace[i].preempt ? 1 : cfg.freeCost;
       }
       // push in reverse so that the search order is position-ascending (shortest deviation first)
+      auto shared = std::make_shared<const std::vector<uint8_t>>(e.choices);
       for (size_t ii = e.trace.size(); ii-- > f.prefix.size();) {
         size_t i = ii;
         if (first && cfg.rootStride > 1 && (int)(i % cfg.rootStride) != cfg.rootOffset) continue;
         int c = costBefore[i] + (e.trace[i].preempt ? 1 : cfg.freeCost);
         if (c > cfg.bound) continue;
         for (int alt = e.trace[i].n - 1; alt >= 1; --alt) {
-          Frame nf;
-          nf.prefix.assign(e.choices.begin(), e.choices.begin() + i);
-          nf.prefix.push_back((uint8_t)alt);
+          PFrame nf;
+          nf.base = shared;
+          nf.len = i;
+          nf.alt = alt;
           stack.push_back(std::move(nf));
         }
       }
